@@ -48,13 +48,18 @@ type cwCfg struct {
 	Shards   uint32 `json:"shards"`   // shard_num of the three groups
 	Replicas uint32 `json:"replicas"` // copies per shard - 1
 	Thorough bool   `json:"thorough"`
+	Row      bool   `json:"row,omitempty"` // --measure-vectorized-enabled=false on every node: the row (proto) distributed plan
 }
 
 func (c cwCfg) String() string {
-	if c.Nodes == 0 {
-		return fmt.Sprintf("standalone/s%d", c.Shards)
+	row := ""
+	if c.Row {
+		row = "/row"
 	}
-	return fmt.Sprintf("n%d/s%d/r%d", c.Nodes, c.Shards, c.Replicas)
+	if c.Nodes == 0 {
+		return fmt.Sprintf("standalone/s%d%s", c.Shards, row)
+	}
+	return fmt.Sprintf("n%d/s%d/r%d%s", c.Nodes, c.Shards, c.Replicas, row)
 }
 
 const (
@@ -85,8 +90,9 @@ type rowFact struct {
 	TS  int64  // unix nanoseconds
 }
 
-// measure: 12 series x 4 instants (2 per segment), all timestamps distinct, vi distinct (no ties for top / order), group
-// sums distinct; region/code (plain tags) with nulls; zone/lvl indexed and constant per series (measure keeps indexed
+// measure: 12 series x 4 instants (2 per segment; the two instants of a series in a segment lie 300 ms apart inside ONE
+// wall-clock second - millisecond is the precision of the write API - and carry the same indexed tag values), all
+// timestamps distinct, vi distinct (no ties for top / order), group sums distinct; region/code (plain tags) with nulls; zone/lvl indexed and constant per series (measure keeps indexed
 // tags in the series document). One point is written twice (version 1 in batch 0, version 2 in batch 1).
 func cMeasureRows() (batches [2][]*measurev1.DataPointValue, facts []rowFact) {
 	// no empty string next to null in a group-by tag: group-by puts null and "" into one group and labels it with
@@ -95,7 +101,7 @@ func cMeasureRows() (batches [2][]*measurev1.DataPointValue, facts []rowFact) {
 	codes := []int64{200, 404, 500, -1}
 	for k, svc := range cSvcs {
 		for j := 0; j < 4; j++ {
-			ts := int64(j)*1000 + int64(k)*7
+			ts := int64(j)*300 + int64(k)*7
 			b := 1
 			if j < 2 {
 				ts -= dayMs
@@ -320,11 +326,22 @@ func cRequests(thorough bool) []cReq {
 			}
 		}
 	}
+	// ordered by the (indexed) entity tag: the sort group is "equal svc" = the 4 points of one series, two of them inside
+	// one second; index order is requested untruncated in quick, so these shapes carry the truncated windows too
+	for _, c := range mcrits {
+		for _, srt := range []modelv1.Sort{modelv1.Sort_SORT_ASC, modelv1.Sort_SORT_DESC} {
+			o := cOrder{&modelv1.QueryOrder{IndexRuleName: "svc", Sort: srt}, "svc." + strings.ToLower(strings.TrimPrefix(srt.String(), "SORT_"))}
+			for _, w := range []cWin{{1000, 0}, {5, 3}, {}} {
+				out = append(out, cReq{Engine: 'M', Msg: mreq(c, o, w), Ordered: true,
+					Shape: "raw/crit=" + cClass(c.label) + "/order=" + o.label + "/window=" + w.String()})
+			}
+		}
+	}
 	// one segment only, and a range cutting a segment
 	for _, tr := range []struct {
 		r *modelv1.TimeRange
 		l string
-	}{{e2e.Range(-dayMs-1000, -dayMs+3600*1000), "seg0"}, {e2e.Range(0, 3600*1000), "seg1"}, {e2e.Range(-dayMs+1000, 1050), "cut"}} {
+	}{{e2e.Range(-dayMs-1000, -dayMs+3600*1000), "seg0"}, {e2e.Range(0, 3600*1000), "seg1"}, {e2e.Range(-dayMs+200, 700), "cut"}} {
 		for _, o := range cOrders("lvl")[:3] {
 			q := mreq(mcrits[0], o, cWin{1000, 0})
 			q.TimeRange = tr.r
@@ -486,16 +503,21 @@ func clusterWorker(c cwCfg) {
 	t0 := time.Now()
 	var s *e2e.Server
 	var cl *e2e.Cluster
+	var extra []string
+	if c.Row {
+		extra = []string{"--measure-vectorized-enabled=false"}
+	}
 	if c.Nodes == 0 {
-		s = e2e.Start("--measure-flush-timeout=500ms", "--stream-flush-timeout=500ms", "--trace-flush-timeout=500ms")
+		s = e2e.Start(append([]string{"--measure-flush-timeout=500ms", "--stream-flush-timeout=500ms", "--trace-flush-timeout=500ms"}, extra...)...)
 	} else {
-		cl = e2e.StartCluster(c.Nodes, nil)
+		cl = e2e.StartCluster(c.Nodes, extra)
 		s = cl.Server
 	}
 	rep := cReport{Cfg: c, StartMs: time.Since(t0).Milliseconds(), Delivered: true}
 	s.CreateGroupR(gM, commonv1.Catalog_CATALOG_MEASURE, c.Shards, c.Replicas, 1, 7)
 	s.CreateMeasure(gM, nM, []string{"svc"}, cMeasureFamilies(), []e2e.Field{{Name: "vi", Type: e2e.FInt}, {Name: "vf", Type: e2e.FFloat}}, false,
-		e2e.Index{Name: "zone", Tags: []string{"zone"}, Type: e2e.IInv}, e2e.Index{Name: "lvl", Tags: []string{"lvl"}, Type: e2e.IInv})
+		e2e.Index{Name: "zone", Tags: []string{"zone"}, Type: e2e.IInv}, e2e.Index{Name: "lvl", Tags: []string{"lvl"}, Type: e2e.IInv},
+		e2e.Index{Name: "svc", Tags: []string{"svc"}, Type: e2e.IInv})
 	s.CreateGroupR(gS, commonv1.Catalog_CATALOG_STREAM, c.Shards, c.Replicas, 1, 7)
 	s.CreateStream(gS, nS, []string{"svc"}, cStreamFamilies(),
 		e2e.Index{Name: "dur", Tags: []string{"dur"}, Type: e2e.IInv}, e2e.Index{Name: "tid", Tags: []string{"tid"}, Type: e2e.IInv})
@@ -871,6 +893,8 @@ func clusterConfigs(thorough bool) []cwCfg {
 		for _, c := range [][3]int{{1, 1, 0}, {2, 3, 1}, {3, 2, 0}, {3, 3, 1}} {
 			out = append(out, cwCfg{Nodes: c[0], Shards: uint32(c[1]), Replicas: uint32(c[2])})
 		}
+		// the row (non-vectorized) distributed plan on the replicated configurations
+		out = append(out, cwCfg{Nodes: 2, Shards: 3, Replicas: 1, Row: true}, cwCfg{Nodes: 3, Shards: 3, Replicas: 1, Row: true})
 		return out
 	}
 	for n := 1; n <= 3; n++ {
@@ -880,6 +904,9 @@ func clusterConfigs(thorough bool) []cwCfg {
 					continue // two copies of a shard need two data nodes: the 3 configurations 1 node x replicas=1 do not exist
 				}
 				out = append(out, cwCfg{Nodes: n, Shards: uint32(s), Replicas: uint32(r), Thorough: true})
+				if r == 1 || (n == 3 && s == 3) {
+					out = append(out, cwCfg{Nodes: n, Shards: uint32(s), Replicas: uint32(r), Thorough: true, Row: true})
+				}
 			}
 		}
 	}
@@ -1035,24 +1062,23 @@ func clusterPhase(r *ev.Run, thorough bool, dir string) cStats {
 
 // clusterJudge runs the standalone references and the given cluster configurations and compares them.
 func clusterJudge(cfgs []cwCfg, thorough bool, dir string) (cStats, []cVio) {
-	shardSet := map[uint32]bool{}
+	shardSet := map[cwCfg]bool{}
 	for _, c := range cfgs {
-		shardSet[c.Shards] = true
+		shardSet[cwCfg{Shards: c.Shards, Row: c.Row}] = true
 	}
 	var all []cwCfg
-	for s := uint32(1); s <= 3; s++ {
-		if shardSet[s] {
-			all = append(all, cwCfg{Shards: s, Thorough: thorough})
+	for _, row := range []bool{false, true} {
+		for s := uint32(1); s <= 3; s++ {
+			if shardSet[cwCfg{Shards: s, Row: row}] {
+				all = append(all, cwCfg{Shards: s, Thorough: thorough, Row: row})
+			}
 		}
 	}
 	all = append(all, cfgs...)
 	for i := range all {
 		all[i].Thorough = thorough
 	}
-	par := 4
-	if thorough {
-		par = 5
-	}
+	par := 6
 	_, mf := cMeasureRows()
 	_, sf := cStreamRows()
 	_, tf := cTraceRows()
@@ -1100,7 +1126,7 @@ func clusterJudge(cfgs []cwCfg, thorough bool, dir string) (cStats, []cVio) {
 	for _, c := range cfgs {
 		c.Thorough = thorough
 		rep := reps[c.String()]
-		ref := reps[cwCfg{Shards: c.Shards}.String()]
+		ref := reps[cwCfg{Shards: c.Shards, Row: c.Row}.String()]
 		if c.Replicas > 0 && c.Nodes < int(c.Replicas)+1 {
 			// fewer nodes than copies: whatever happens is recorded, nothing is demanded
 			outcomes[fmt.Sprintf("cluster/%s/not-judged(fewer-nodes-than-copies)", c)]++
@@ -1163,6 +1189,9 @@ func clusterJudge(cfgs []cwCfg, thorough bool, dir string) (cStats, []cVio) {
 			}
 			if c.Replicas > 0 {
 				multi += ",replicated"
+			}
+			if c.Row {
+				multi += ",row-plan"
 			}
 			if kind == "" {
 				outcomes["cluster/"+eng+"/agree"]++
